@@ -25,7 +25,7 @@ INFO = {
                    "cache[l] = H(cache[l+1], cache[l+1]); root() is node 0 / get_node(0, 0). R06-4 the persistent adapter delegates: set/delete/update_next/set_range/get/root/"
                    "leaves_set/depth/capacity/proof each call pmtree's operation of the same name with the caller's arguments exactly once and before any branch. "
                    "R06-5 get_subtree_root(n, index) in the three back ends: two bounds rejections, level 0 = root(), level depth = get(index), level n = the node "
-                   "(n, index >> (depth - n)) - in the full tree as a climb of depth - n parents ((i+1)>>1)-1 from node 2^depth + index - 1 (or the equivalent closed form). R06-6 the plain observers: capacity = 1 << depth, depth, metadata/set_metadata (in-memory trees), compute_root = Ok(root()). R06-8 every success path of an in-memory set / set_range stores, recomputes, raises the mark and flags (no value-dependent shortcut). R06-7 who-may-write: next_index, nodes, the default cache and depth of the in-memory trees are stored only by the operations whose effect is specified. R06-9 stored and returned values as terms: set(i, v) stores v at leaf position i, delete(i) = set(i, H::default_leaf()), get(i) returns the node stored at leaf position i, optimal set_range stores leaf k at (depth, start + k). R06-10 (shared with C08/C15): the persistent adapter's batch removal rewrites exactly the span first..=last with the default leaf at the listed positions and the current leaf elsewhere. R06-11 store adapter: SledDB::get returns sled's bytes for the key untransformed, put is one unconditional insert of the pair, every iteration of put_batch inserts its own pair exactly once with no other branch and the batch is applied to self.0, Ok only if sled reported Ok (a record dropped under the persistent tree makes stored leaves disagree with the reported root).",
+                   "(n, index >> (depth - n)) - in the full tree as a climb of depth - n parents ((i+1)>>1)-1 from node 2^depth + index - 1 (or the equivalent closed form). R06-6 the plain observers: capacity = 1 << depth, depth, metadata/set_metadata (in-memory trees), compute_root = Ok(root()). R06-8 every success path of an in-memory set / set_range stores, recomputes, raises the mark and flags (no value-dependent shortcut). R06-7 who-may-write: next_index, nodes, the default cache and depth of the in-memory trees are stored only by the operations whose effect is specified. R06-9 stored and returned values as terms: set(i, v) stores v at leaf position i, delete(i) = set(i, H::default_leaf()), get(i) returns the node stored at leaf position i, optimal set_range stores leaf k at (depth, start + k). R06-10 (shared with C08/C15): the persistent adapter's batch removal rewrites exactly the span first..=last with the default leaf at the listed positions and the current leaf elsewhere. R06-11 store adapter: SledDB::get returns sled's bytes for the key untransformed, put is one unconditional insert of the pair, every iteration of put_batch inserts its own pair exactly once with no other branch and the batch is applied to self.0, Ok only if sled reported Ok (a record dropped under the persistent tree makes stored leaves disagree with the reported root). R06-12 (shared, C16 R16-4): a persistent tree opened again at its location is the stored tree (creation only on the 'nothing stored' report, which load gives only for an unrecovered location).",
     "not_decided": "equality of roots/leaves with the ideal tree as values over histories (numeric; Poseidon opaque), pmtree's internals",
     "assumptions": ["pmtree's mutators are atomic on their own errors"],
 }
